@@ -45,18 +45,25 @@ type evalErr struct{ msg string }
 func (e evalErr) Error() string { return e.msg }
 
 type termParser struct {
-	s    string
-	pos  int
-	bind Bindings
-	keys []string // binding keys sorted by decreasing length
+	s       string
+	pos     int
+	bind    Bindings
+	keys    []string // binding keys sorted by decreasing length
+	resolve func(leaf string) (TVal, bool)
 }
 
 func isDelim(c byte) bool {
-	return c == ' ' || c == ')' || c == ',' || c == ']'
+	return c == ' ' || c == ')' || c == ',' || c == ']' || c == '['
 }
 
 func EvalTerm(s string, bind Bindings) (TVal, error) {
-	p := &termParser{s: s, bind: bind}
+	return EvalTermR(s, bind, nil)
+}
+
+// EvalTermR evaluates with an additional resolver for leaves (e.g. results of
+// append calls recorded on the path).
+func EvalTermR(s string, bind Bindings, resolve func(string) (TVal, bool)) (TVal, error) {
+	p := &termParser{s: s, bind: bind, resolve: resolve}
 	for k := range bind {
 		p.keys = append(p.keys, k)
 	}
@@ -81,6 +88,32 @@ func EvalTerm(s string, bind Bindings) (TVal, error) {
 func (p *termParser) rest() string { return p.s[p.pos:] }
 
 func (p *termParser) expr() (TVal, error) {
+	v, err := p.primary()
+	if err != nil {
+		return v, err
+	}
+	for strings.HasPrefix(p.rest(), "[") {
+		p.pos++
+		ix, err := p.expr()
+		if err != nil {
+			return ix, err
+		}
+		if !strings.HasPrefix(p.rest(), "]") {
+			return v, evalErr{"expected ] in " + p.s}
+		}
+		p.pos++
+		if v.K != "b" || ix.K != "u" {
+			return v, evalErr{"index of non-bytes"}
+		}
+		if ix.U >= uint64(len(v.B)) {
+			return v, evalErr{"index out of range (the extracted term would panic)"}
+		}
+		v = U(uint64(v.B[ix.U]))
+	}
+	return v, nil
+}
+
+func (p *termParser) primary() (TVal, error) {
 	r := p.rest()
 	// bound leaf (longest match followed by a delimiter or postfix we do not understand)
 	for _, k := range p.keys {
@@ -235,6 +268,94 @@ func (p *termParser) expr() (TVal, error) {
 			return v, nil
 		}
 		return v, evalErr{"unsupported conversion " + typ}
+	}
+	if strings.HasPrefix(r, "slice(") {
+		p.pos += len("slice(")
+		x, err := p.expr()
+		if err != nil {
+			return x, err
+		}
+		var parts [3]*TVal
+		for i := 0; i < 3; i++ {
+			if !strings.HasPrefix(p.rest(), ",") {
+				return x, evalErr{"bad slice term"}
+			}
+			p.pos++
+			if strings.HasPrefix(p.rest(), ",") || strings.HasPrefix(p.rest(), ")") {
+				continue
+			}
+			v, err := p.expr()
+			if err != nil {
+				return v, err
+			}
+			parts[i] = &v
+		}
+		if !strings.HasPrefix(p.rest(), ")") {
+			return x, evalErr{"expected ) after slice"}
+		}
+		p.pos++
+		if x.K != "b" {
+			return x, evalErr{"slice of non-bytes"}
+		}
+		lo, hi := uint64(0), uint64(len(x.B))
+		if parts[0] != nil {
+			lo = parts[0].U
+		}
+		if parts[1] != nil {
+			hi = parts[1].U
+		}
+		if lo > hi || hi > uint64(len(x.B)) {
+			return x, evalErr{"slice bounds out of range (the extracted term would panic)"}
+		}
+		return Bv(x.B[lo:hi]), nil
+	}
+	if strings.HasPrefix(r, "[") {
+		p.pos++
+		var out []byte
+		for {
+			v, err := p.expr()
+			if err != nil {
+				return v, err
+			}
+			if v.K != "u" {
+				return v, evalErr{"list of non-integers"}
+			}
+			out = append(out, byte(v.U))
+			if strings.HasPrefix(p.rest(), ", ") {
+				p.pos += 2
+				continue
+			}
+			break
+		}
+		if !strings.HasPrefix(p.rest(), "]") {
+			return TVal{}, evalErr{"expected ] after list"}
+		}
+		p.pos++
+		return Bv(out), nil
+	}
+	if p.resolve != nil {
+		// scan a leaf token up to a delimiter at depth 0
+		depth, j := 0, 0
+		for j < len(r) {
+			c := r[j]
+			if c == '(' || c == '{' {
+				depth++
+			} else if c == ')' || c == '}' {
+				if depth == 0 {
+					break
+				}
+				depth--
+			} else if depth == 0 && isDelim(c) {
+				break
+			}
+			j++
+		}
+		if j > 0 {
+			if v, ok := p.resolve(r[:j]); ok {
+				p.pos += j
+				return v, nil
+			}
+		}
 	}
 	n := len(r)
 	if n > 60 {
